@@ -691,6 +691,8 @@ func (Area) Exec(input string) string {
 		err := parseErr(f[1])
 		st, hs := webbridge.VerifErrorStatus(err)
 		return fmt.Sprintf("%d %s %s %d", int(st.Code()), common.HexS(st.Message()), lettersOf(statusDetails(st)), hs)
+	case "rb":
+		return execRb(f)
 	case "e2e", "opts", "strag", "create":
 		return execIsolated(input) // in a worker subprocess: a runtime fatal error becomes "CRASH …", not a dead harness
 	}
@@ -1029,6 +1031,8 @@ func (Area) Gen(r *rand.Rand, tier string, emit func(string)) {
 
 	// 0. the root constructor's option plumbing (finite, run completely every time)
 	genOpts(emit, count)
+	// 0c. response_body selection on nested response messages (run-time built schemas, real transcoder)
+	genRb(r, tier, emit, count)
 
 	// 1. the executed table of the third-party runtime.HTTPStatusFromCode
 	for c := 0; c <= 20; c++ {
